@@ -62,6 +62,9 @@ class Run:
         if not fired:
             raise AnalysisBroken("%s: positive control '%s' was not flagged - rule is vacuous" % (self.prop, what))
     def observe(self, text): self.observations.append(text)
+    def defer_broken(self, msg):
+        """part of the analysis could not be carried out: reported as ANALYSIS-BROKEN at the end unless another rule found a violation"""
+        self.deferred = getattr(self, "deferred", []) + [msg]
 
     # ---- finishing ----
     def finish(self, explanation):
@@ -83,6 +86,7 @@ class Run:
             else:
                 new.append((k, f))
         stale = [k for k, e in known.items() if e.get("status") == "known" and k not in matched]
+        if getattr(self, "deferred", None) and not new: raise AnalysisBroken("; ".join(self.deferred))
         OUTBASE = os.environ.get("VERIF_OUT_DIR", VERIF)
         outdir = os.path.join(OUTBASE, "out", self.prop)
         os.makedirs(outdir, exist_ok=True)
@@ -130,6 +134,7 @@ class Run:
             json.dump(ev, fh, indent=1, default=str)
         print("%s %s: obligations=%d discharged=%d known=%d new=%d wall=%.1fs" % (
             self.prop, self.tier, self.obligations, self.discharged, len(kf), len(new), wall))
+        for m in getattr(self, "deferred", []): print("note: part of the analysis was not carried out: %s" % m)
         return 1 if new else 0
 
 
